@@ -18,6 +18,8 @@ results = {}
 for sid in ids:
     d = os.path.join(sd, sid)
     meta = json.load(open(os.path.join(d, "meta.json")))
+    if meta.get("status") == "retired":
+        print("%-28s retired: %s" % (sid, meta.get("retired_reason", "")[:120])); continue
     prop = meta["property"]
     patch = os.path.join(d, "patch.diff")
     if in_repo:
@@ -44,6 +46,9 @@ for sid in ids:
             subprocess.run(["git", "-C", "/repo", "checkout", "--", "."], check=True)
         else:
             subprocess.run(["git", "-C", "/repo", "worktree", "remove", "--force", repo])
-json.dump(results, open(os.path.join(sd, "RESULTS.json"), "w"), indent=1)
+rp = os.path.join(sd, "RESULTS.json")
+allres = json.load(open(rp)) if os.path.exists(rp) else {}
+allres.update(results)
+json.dump(allres, open(rp, "w"), indent=1, sort_keys=True)
 # evidence of the unchanged tree must be regenerated after this (evidence files were overwritten)
 print("(runs against scratch worktrees write their evidence under build/, not evidence/)")
